@@ -519,6 +519,11 @@ func (k *c12run) datePair(a, b *gedcom.DateNode, my c12rat) (float64, bool) {
 	if oka && okb && k.r.Chance(1, 4) {
 		c.Tie(fmt.Sprintf("datesim %s %s %s", wa, wb, my), c12fl(s))
 	}
+	// the float64 result itself against the binary64 model (Model/Float64.lean), bit for bit
+	if oka && okb && a != nil && b != nil && my.n > 0 && my.d > 0 {
+		c.Tie(fmt.Sprintf("datesimf %s %s %s", wa, wb, my), c05f64(s))
+		c.Count("datesimf")
+	}
 	return s, true
 }
 
